@@ -132,6 +132,34 @@ func genPrefix(r *Rng) string {
 	return odd[r.Intn(len(odd))]
 }
 
+// lexClean: lexical normalisation of a slash path (empty and "." segments dropped, ".." resolved),
+// written here independently of the repository and of package path
+func lexClean(p string) string {
+	rooted := strings.HasPrefix(p, "/")
+	var out []string
+	for _, seg := range strings.Split(p, "/") {
+		switch {
+		case seg == "" || seg == ".":
+		case seg == "..":
+			if len(out) > 0 && out[len(out)-1] != ".." {
+				out = out[:len(out)-1]
+			} else if !rooted {
+				out = append(out, "..")
+			}
+		default:
+			out = append(out, seg)
+		}
+	}
+	s := strings.Join(out, "/")
+	if rooted {
+		s = "/" + s
+	}
+	if s == "" {
+		s = "."
+	}
+	return s
+}
+
 var uuidRe = regexp.MustCompile(`^uploads/([0-9a-f]{8}-[0-9a-f]{4}-[0-9a-f]{4}-[0-9a-f]{4}-[0-9a-f]{12})/`)
 
 func keysDriver(seed uint64, n int, outV, outJSON string, _ []string) {
@@ -192,6 +220,20 @@ func keysDriver(seed uint64, n int, outV, outJSON string, _ []string) {
 			text = fmt.Sprintf("s3 mode=%s prefix=%q %s/%s -> %s", mode, pre, kind, hash, name)
 			scope = "s3|" + pre + "|" + mode
 			rep.Count("backend.s3")
+			// direct oracle: the published bucket layout, written down independently of the proxy's code
+			// (every 2.x release stored <prefix>/<key space dir>/<hh>/<hash> as ONE lexically cleaned
+			// slash path, "cas.v2" for compressed CAS objects)
+			ksdir := map[cache.EntryKind]string{cache.CAS: "cas", cache.AC: "ac", cache.RAW: "raw"}[kind]
+			if kind == cache.CAS && mode == "zstd" {
+				ksdir = "cas.v2"
+			}
+			want := ksdir + "/" + hash[:2] + "/" + hash
+			if pre != "" {
+				want = lexClean(pre + "/" + want)
+			}
+			if name != want {
+				rep.Fail(c, fmt.Sprintf("S3 object key %q differs from the published v2 layout %q: a bucket written by an earlier release is no longer found", name, want), text)
+			}
 		case 1: // azblob
 			pre := genPrefix(r)
 			al := &recLogger{}
